@@ -463,8 +463,10 @@ static int walkpair(const json &plan) {
         ++transitions;
         const json &act = tr.at("act");
         const std::string toKey = tr.at("to").dump();
-        const bool isCopy = act.at("kind") == "copy";
-        if (isCopy)
+        const std::string actKind = act.at("kind");
+        const bool isCopy = actKind == "copy";
+        const bool isSwap = actKind == "swap", isSelf = actKind == "selfassign";
+        if (isCopy || isSwap || isSelf)
             ++copies;
         if (tr.at("eq").at("e12").get<bool>())
             ++eqTrue;
@@ -484,20 +486,37 @@ static int walkpair(const json &plan) {
                                  {"history", histToJson(rep.hist)}, {"act", act}}).dump());
                 std::unique_ptr<IObj> x = rep.a[fam]->clone(), y = rep.b[fam]->clone();
                 std::string why;
+                const json xBefore = x->enc(), yBefore = y->enc();
+                std::string valueWhy;      // the values after a copy / move / swap / self-assignment
                 if (isCopy) {
                     IObj &src = act.at("src") == 1 ? *x : *y;
-                    if (act.at("how") == "construct") {
-                        std::unique_ptr<IObj> c = src.clone(); // copy constructor
+                    const json srcBefore = act.at("src") == 1 ? xBefore : yBefore;
+                    const std::string how = act.at("how");
+                    if (how == "construct" || how == "moveconstruct") {
+                        std::unique_ptr<IObj> c = how == "construct" ? src.clone() : src.moveClone();
                         if (act.at("dst") == 1)
                             x = std::move(c);
                         else
                             y = std::move(c);
                     } else {
-                        if (act.at("dst") == 1)
-                            x->assignFrom(src);
+                        IObj &dst = act.at("dst") == 1 ? *x : *y;
+                        if (how == "assign")
+                            dst.assignFrom(src);
                         else
-                            y->assignFrom(src);
+                            dst.moveAssignFrom(src);
                     }
+                    if (x->enc() != srcBefore || y->enc() != srcBefore)
+                        valueWhy = how + ": the receiver (or the source afterwards) does not hold the source's value: a = " +
+                                   x->enc().dump() + " b = " + y->enc().dump() + " source was " + srcBefore.dump();
+                } else if (isSwap) {
+                    x->swapWith(*y);
+                    if (x->enc() != yBefore || y->enc() != xBefore)
+                        valueWhy = "std::swap did not exchange the values: a = " + x->enc().dump() + " b = " + y->enc().dump();
+                } else if (isSelf) {
+                    IObj &o = act.at("obj") == 1 ? *x : *y;
+                    o.selfAssign();
+                    if (x->enc() != xBefore || y->enc() != yBefore)
+                        valueWhy = "self-assignment changed the object: " + o.enc().dump();
                 } else {
                     IObj &o = act.at("obj") == 1 ? *x : *y;
                     std::string out = o.apply(act.at("c"));
@@ -518,7 +537,9 @@ static int walkpair(const json &plan) {
                           "; a = " + x->abstractGraph().dump() + " b = " + y->abstractGraph().dump();
                 else if (isCopy && !same)
                     why = "a copy does not equal its source";
-                else if (!isCopy && (act.at("obj") == 1 ? y->exact() != rep.b[fam]->exact() : x->exact() != rep.a[fam]->exact()))
+                else if (!valueWhy.empty())
+                    why = valueWhy;
+                else if (actKind == "call" && (act.at("obj") == 1 ? y->exact() != rep.b[fam]->exact() : x->exact() != rep.a[fam]->exact()))
                     why = "a call on one object changed the other one (copies are not independent)";
                 else if (why.empty() && (x->differs(*y) == e12 || y->differs(*x) == e21 || x->differs(*x) == e11))
                     why = "operator!= is not the negation of operator==";
@@ -660,7 +681,7 @@ static int record(const json &plan) {
                 return n == 0 ? 0 : (int)pick(n);
             };
             if (n == 0 && bad.empty() && op != "resize" && op != "clearEdges" && op != "removeSelfLoops" &&
-                op != "removeDuplicateEdges")
+                op != "removeDuplicateEdges" && op != "relocate")
                 op = "resize";
             c["op"] = op;
             if (op == "resize") {
@@ -672,6 +693,9 @@ static int record(const json &plan) {
                        op == "getInDegree" || op == "getDegree" || op == "assertVertexInRange") {
                 c["v"] = vert();
             } else if (op == "clearEdges" || op == "removeSelfLoops" || op == "removeDuplicateEdges") {
+            } else if (op == "relocate") {
+                static const char *hows[] = {"copyassign", "moveassign", "moveconstruct", "swap", "selfassign"};
+                c["how"] = hows[pick(5)];
             } else {
                 c["i"] = vert();
                 c["j"] = pick(5) == 0 ? c["i"].get<int>() : vert(); // favour self-loops a little
@@ -927,18 +951,33 @@ static int replayPair(const json &r) {
     std::cout << "family: " << x->family() << "\n";
     bool consistent = true;
     auto doAct = [&](const json &act) {
+        bool valuesOk = true;
         if (act.at("kind") == "copy") {
             IObj &src = act.at("src") == 1 ? *x : *y;
-            if (act.at("how") == "construct") {
-                auto c = src.clone();
+            const json srcBefore = src.enc();
+            const std::string how = act.at("how");
+            if (how == "construct" || how == "moveconstruct") {
+                auto c = how == "construct" ? src.clone() : src.moveClone();
                 (act.at("dst") == 1 ? x : y) = std::move(c);
-            } else
+            } else if (how == "assign")
                 (act.at("dst") == 1 ? *x : *y).assignFrom(src);
+            else
+                (act.at("dst") == 1 ? *x : *y).moveAssignFrom(src);
+            valuesOk = x->enc() == srcBefore && y->enc() == srcBefore;
+        } else if (act.at("kind") == "swap") {
+            const json xb = x->enc(), yb = y->enc();
+            x->swapWith(*y);
+            valuesOk = x->enc() == yb && y->enc() == xb;
+        } else if (act.at("kind") == "selfassign") {
+            IObj &o = act.at("obj") == 1 ? *x : *y;
+            const json before = o.enc();
+            o.selfAssign();
+            valuesOk = o.enc() == before;
         } else if (act.at("kind") == "call")
             (act.at("obj") == 1 ? *x : *y).apply(act.at("c"));
         bool same = x->abstractGraph() == y->abstractGraph();
         bool good = x->equals(*y) == same && y->equals(*x) == same && x->equals(*x) && y->equals(*y) &&
-                    x->differs(*y) != x->equals(*y);
+                    x->differs(*y) != x->equals(*y) && valuesOk;
         consistent = consistent && good;
         std::cout << "  " << act.dump() << "  ->  same graph:" << same << " a==b:" << x->equals(*y) << " b==a:" << y->equals(*x)
                   << " a!=b:" << x->differs(*y) << (good ? "" : "   <-- operator== disagrees with the graphs shown") << "\n";
